@@ -650,6 +650,8 @@ func runC07(c *Ctx) {
 			return mdConfig{Ext: "all", AutoID: true, Attr: true, Unsafe: i%2 == 0, XHTML: i%3 == 0, HardWraps: i%7 == 0}
 		case 1:
 			return mdConfig{Ext: "gfm", AutoID: i%2 == 0, Unsafe: true}
+		case 2:
+			return mdConfig{Ext: "allopts", AutoID: true, Attr: i%2 == 0, XHTML: i%3 == 0}
 		}
 		return allCfgs[rng.Intn(len(allCfgs))]
 	}
@@ -715,6 +717,9 @@ func runC07(c *Ctx) {
 		cf := allCfgs[(i*37+int(c.Seed))%len(allCfgs)]
 		if c.Thorough() {
 			cf = allCfgs[i%len(allCfgs)]
+		}
+		if i%6 == 5 {
+			cf = mdConfig{Ext: "allopts", AutoID: true, Attr: true, Unsafe: i%12 == 5}
 		}
 		api := apis4[i%len(apis4)]
 		docs := make([]string, 4)
